@@ -18,6 +18,7 @@ import (
 
 	"golang.org/x/text/language"
 	"seehuhn.de/go/sfnt"
+	"seehuhn.de/go/sfnt/cff"
 	"seehuhn.de/go/sfnt/glyph"
 	"seehuhn.de/go/sfnt/header"
 	"seehuhn.de/go/sfnt/opentype/gtab"
@@ -33,7 +34,7 @@ import (
 
 func init() {
 	mon.RegisterCfg("C16", mon.Config{
-		Rule: "one shared *sfnt.Font per case (generated fonts of every outline kind with layout tables, corpus fonts read from bytes); N in {2,4,16,64} goroutines are released by a barrier and each performs seeded permutations of the 15 read-only operations of the property for R rounds, under GOMAXPROCS 2 and 16; the binary is built with the Go race detector (halt_on_error=0, log to file): any report block whose stack touches go-sfnt is a violation; every result is compared with the result of the same call made alone before the goroutines start; a canary (two goroutines calling header.Write on one table map with a head table, documented as patched in place) must be reported by the detector, otherwise the run is inconclusive. distinct = distinct (font, N, GOMAXPROCS, permutation seed) schedules started (hash); overlapping operation pairs are listed as classes",
+		Rule: "one shared *sfnt.Font per case (generated fonts of every outline kind with layout tables, corpus fonts read from bytes); N in {2,4,16,64} goroutines are released by a barrier and each performs seeded permutations of the 15 read-only operations of the property for R rounds, under GOMAXPROCS 2 and 16; the binary is built with the Go race detector (halt_on_error=0, log to file): any report block whose stack touches go-sfnt is a violation; every result is compared with the result of the same call made alone before the goroutines start; a canary (two goroutines calling header.Write on one table map with a head table, documented as patched in place) must be reported by the detector, otherwise the run is inconclusive. distinct = distinct (font, N, GOMAXPROCS, permutation seed) schedules started (hash); overlapping operation pairs are listed as classes; half of the generated fonts are written and read back before they are shared (reader-built structures), CID-keyed fonts with several private dictionaries in contiguous blocks; three layouter operations with different feature selections",
 		Assumptions: []string{
 			"the race detector reports races between accesses that actually executed; coverage is the set of operation pairs whose executions overlapped in time on the same font (listed in the evidence)",
 			"operations whose result differs between two calls made alone (nondeterministic by themselves) are excluded from the value comparison, not from the race detection",
@@ -135,15 +136,16 @@ func c16ops() []c16op {
 			return fmt.Sprint(digest(b.Bytes()), err)
 		}},
 		{"Layout", func(f *sfnt.Font) bool { return f.CMapTable != nil }, func(f *sfnt.Font, r *rand.Rand) string {
-			lay, err := f.NewLayouter(language.English, nil, nil)
-			if err != nil {
-				return "err:" + err.Error()
-			}
-			var b strings.Builder
-			for _, s := range []string{"Hello AB fi", "ffl x", "ABBA"} {
-				b.WriteString(seqString(lay.Layout(s)))
-			}
-			return digest([]byte(b.String()))
+			return c16layout(f, nil, nil)
+		}},
+		// layouters with other feature selections: all features of the font,
+		// and the first two of each table (they share the first feature with
+		// the selection before)
+		{"Layout(all features)", func(f *sfnt.Font) bool { return f.CMapTable != nil && (f.Gsub != nil || f.Gpos != nil) }, func(f *sfnt.Font, r *rand.Rand) string {
+			return c16layout(f, c16features(f.Gsub, 1<<30), c16features(f.Gpos, 1<<30))
+		}},
+		{"Layout(two features)", func(f *sfnt.Font) bool { return f.CMapTable != nil && (f.Gsub != nil || f.Gpos != nil) }, func(f *sfnt.Font, r *rand.Rand) string {
+			return c16layout(f, c16features(f.Gsub, 2), c16features(f.Gpos, 2))
 		}},
 		{"Apply(GSUB)", func(f *sfnt.Font) bool { return f.Gsub != nil && len(f.Gsub.LookupList) > 0 }, func(f *sfnt.Font, r *rand.Rand) string {
 			var ll []gtab.LookupIndex
@@ -168,6 +170,35 @@ func c16ops() []c16op {
 			return digest([]byte(strings.Join(builder.ExplainGpos(f), "\n")))
 		}},
 	}
+}
+
+func c16layout(f *sfnt.Font, gsubOn, gposOn map[string]bool) string {
+	lay, err := f.NewLayouter(language.English, gsubOn, gposOn)
+	if err != nil {
+		return "err:" + err.Error()
+	}
+	var b strings.Builder
+	for _, s := range []string{"Hello AB fi", "ffl x", "ABBA"} {
+		b.WriteString(seqString(lay.Layout(s)))
+	}
+	return digest([]byte(b.String()))
+}
+
+// c16features switches on the first n distinct feature tags of a table.
+func c16features(info *gtab.Info, n int) map[string]bool {
+	on := map[string]bool{}
+	if info == nil {
+		return on
+	}
+	for _, ft := range info.FeatureList {
+		if len(on) >= n {
+			break
+		}
+		if ft != nil {
+			on[ft.Tag] = true
+		}
+	}
+	return on
 }
 
 // subsetSupported: only layout data the subsetter declares supported.
@@ -258,6 +289,15 @@ func c16cold(c *mon.Ctx, idx int, out string) {
 		}
 		c16richLayout(c.Rand("coldlayout", idx), f)
 		desc = "generated " + kinds[idx/2%3]
+		if (idx/2)%2 == 1 {
+			buf := &bytes.Buffer{}
+			if _, err := f.Write(buf); err == nil {
+				if g, err := sfnt.Read(bytes.NewReader(buf.Bytes())); err == nil {
+					f = g
+					desc += " read back"
+				}
+			}
+		}
 	}
 	n := 8
 	results := make([][]string, n)
@@ -392,6 +432,22 @@ func runC16(c *mon.Ctx) {
 			o := fontgen.Opts{Kind: []string{"glyf", "cff", "cid"}[cf.font%3], MinGlyphs: 8, MaxGlyphs: 40, Layout: "subset", CMap: []string{"4", "both", "12"}[cf.font%3], Plain: true}
 			var info *fontgen.Info
 			f, info = fontgen.Font(c.Rand("font", cf.font), o)
+			if o.Kind == "cid" {
+				// several private dictionaries in contiguous blocks of glyphs:
+				// the writer then chooses FDSelect format 3 (ranges)
+				o.MinGlyphs, o.MaxGlyphs = 24, 60
+				for try := 0; try < 20; try++ {
+					f, info = fontgen.Font(c.Rand("font", cf.font*100+try), o)
+					if len(f.Outlines.(*cff.Outlines).Private) >= 2 {
+						break
+					}
+				}
+				ol := f.Outlines.(*cff.Outlines)
+				if nfd, n := len(ol.Private), len(ol.Glyphs); nfd >= 2 {
+					ol.FDSelect = func(g glyph.ID) int { return int(g) * nfd / n }
+					k.Class("font:cid-fd-blocks")
+				}
+			}
 			if f.CreationTime.IsZero() && f.ModificationTime.IsZero() {
 				f.ModificationTime = f.ModificationTime.AddDate(2001, 0, 0)
 			}
@@ -400,6 +456,24 @@ func runC16(c *mon.Ctx) {
 				c16richLayout(c.Rand("layout", cf.font), f)
 				name += "+contextual-layout"
 				k.Class("font:contextual-layout")
+			}
+			if (cf.font/2)%2 == 1 {
+				// as applications get it: written to a file and read back, so
+				// that every structure (FDSelect functions, feature and lookup
+				// slices, coverage tables, ...) is the one the reader builds
+				buf := &bytes.Buffer{}
+				if _, err := f.Write(buf); err != nil {
+					k.Fail("mismatch", "setup:write", "cannot write the generated font: %v", err)
+					return
+				}
+				g, err := sfnt.Read(bytes.NewReader(buf.Bytes()))
+				if err != nil {
+					k.Fail("mismatch", "setup:read", "cannot read the generated font back: %v", err)
+					return
+				}
+				f = g
+				name += "+read-back"
+				k.Class("font:read-back:" + info.Kind)
 			}
 		} else {
 			// prefer small and large real fonts alternately
@@ -625,6 +699,6 @@ func runC16(c *mon.Ctx) {
 		}
 		k.Distinct("canary")
 	})
-	c.Require("cold-start-process", "font:contextual-layout", "canary-race-reported", "goroutines=2", "goroutines=64", "GOMAXPROCS=2", "GOMAXPROCS=16",
+	c.Require("cold-start-process", "font:cid-fd-blocks", "font:read-back:cid", "font:read-back:glyf", "font:contextual-layout", "canary-race-reported", "goroutines=2", "goroutines=64", "GOMAXPROCS=2", "GOMAXPROCS=16",
 		"overlap:Write+Write", "overlap:Write+Subset", "overlap:MakeGlyphNames+Layout", "overlap:Apply(GSUB)+ExplainGsub", "overlap:Subset+Layout")
 }
